@@ -46,7 +46,10 @@ Print Assumptions c04_multi_at_refused.
     garbage, dropped): OK only after a 200, for a usable account. *)
 Theorem c04_only_200 : forall d c b ens init, creds_wf c ->
   answer (run_creds d c b ens init) = R_OK ->
-  accepted b = true /\ ens = true /\ init = true /\ exists u p, c = Creds u p.
+  accepted b = true /\ init = true /\
+  exists u p, c = Creds u p
+    /\ ens (extract_username u) (get_user_domain d u) = bound (run_creds d c b ens init)
+    /\ bound (run_creds d c b ens init) <> None.
 Proof. exact only_200. Qed.
 Print Assumptions c04_only_200.
 
@@ -75,10 +78,38 @@ Theorem c04_session_no_rebind : forall (l : list attempt) (s : sess),
 Proof. exact session_no_rebind. Qed.
 Print Assumptions c04_session_no_rebind.
 
+(** The identity-binding step made explicit.  [ens] stands for
+    IMAPServer.EnsureUserAndMailboxes; authenticateUser binds the session to
+    whatever row it returns.  The property therefore needs (and the theorems
+    below state as a premise) [ensure_sound ens]: the row returned for
+    (local, domain) is the row whose (username, domain) is that pair. *)
+Theorem c04_binds_what_ensure_returns : forall d u p b ens init,
+  answer (authenticate_user d u p b ens init) = R_OK ->
+  bound (authenticate_user d u p b ens init) = ens (extract_username u) (get_user_domain d u).
+Proof. exact binds_what_ensure_returns. Qed.
+Print Assumptions c04_binds_what_ensure_returns.
+
+(** The premise is necessary: an EnsureUserAndMailboxes that returns another
+    row (for instance the last row inserted on the connection when its INSERT
+    was ignored) binds a verified client to a foreign store. *)
+Example c04_ensure_premise_is_needed :
+  let stale : ensure_fn := fun _ _ => Some (S_ "dave", S_ "d.test") in
+  ~ ensure_sound stale
+  /\ in_domain (S_ "d.test") (S_ "carol") (S_ "pw") = true
+  /\ ~ imap_spec (S_ "d.test") (S_ "carol") (S_ "pw") true
+        (authenticate_user (S_ "d.test") (S_ "carol") (S_ "pw") (Status 200) stale true).
+Proof.
+  split; [|split].
+  - intros H. specialize (H (S_ "carol") (S_ "d.test") _ eq_refl). discriminate H.
+  - vm_compute. reflexivity.
+  - intros H. apply imap_spec_b_iff in H. vm_compute in H. discriminate.
+Qed.
+
 (** the property for one attempt: all default domains, all user names and
     passwords in the UTF-8 domain (any number of '@', quotes, backslashes,
     control octets), all backend outcomes -- no finding class left here *)
 Theorem c04_imap_attempt : forall d u p b ens init,
+  ensure_sound ens ->
   in_domain d u p = true ->
   imap_spec d u p (accepted b) (authenticate_user d u p b ens init).
 Proof. exact imap_attempt_spec. Qed.
@@ -96,6 +127,7 @@ Proof. exact session_only_200. Qed.
 Print Assumptions c04_session_only_200.
 
 Theorem c04_session_bound_exact : forall l : list attempt,
+  (forall a, In a l -> ensure_sound (a_ens a)) ->
   (forall a u p, In a l -> entry_creds false (a_entry a) = Creds u p -> in_domain (a_domain a) u p = true) ->
   forall row, who (run_session l) = Some row ->
   exists a u p, In a l /\ entry_creds false (a_entry a) = Creds u p /\ accepted (a_backend a) = true
@@ -116,7 +148,7 @@ Print Assumptions c04_login_args_exact.
 
 Theorem c04_login_end_to_end : forall d tag fu fp u p b ens init,
   nsp tag = true -> tag <> [] ->
-  classify_login fu fp u p = None -> in_domain d u p = true ->
+  classify_login fu fp u p = None -> ensure_sound ens -> in_domain d u p = true ->
   imap_spec d u p (accepted b)
     (run_creds d (login_creds false true (login_line tag fu fp u p)) b ens init).
 Proof. exact login_end_to_end. Qed.
@@ -137,7 +169,7 @@ Print Assumptions c04_authplain_exact.
 
 Theorem c04_authplain_end_to_end : forall d z u p b ens init,
   count_byte z NUL = 0 -> count_byte u NUL = 0 -> count_byte p NUL = 0 -> u <> [] -> p <> [] ->
-  in_domain d u p = true ->
+  ensure_sound ens -> in_domain d u p = true ->
   imap_spec d u p (accepted b)
     (run_creds d (authplain_creds false true (b64_encode (z ++ NUL :: u ++ NUL :: p) ++ crlf)) b ens init).
 Proof. exact authplain_end_to_end. Qed.
@@ -209,8 +241,8 @@ Qed.
     else; a@b@c and a SASL user name with LF are refused *)
 Example c04_regression_inputs :
   body_exact_b (build_body inj_user (S_ "pw")) inj_user (S_ "pw") = true
-  /\ answer (authenticate_user (S_ "d.test") (S_ "a@b@c") (S_ "pw") (Status 200) true true) = R_NO
-  /\ sent (authenticate_user (S_ "d.test") (S_ "a@b@c") (S_ "pw") (Status 200) true true) = [].
+  /\ answer (authenticate_user (S_ "d.test") (S_ "a@b@c") (S_ "pw") (Status 200) ensure_ok true) = R_NO
+  /\ sent (authenticate_user (S_ "d.test") (S_ "a@b@c") (S_ "pw") (Status 200) ensure_ok true) = [].
 Proof. repeat split; vm_compute; reflexivity. Qed.
 
 (** LOGIN "a b" "p q": split on blanks before unquoting, the backend is asked
@@ -220,7 +252,7 @@ Theorem c04_refuted_login_tokens :
   classify_login Quoted Quoted (S_ "a b") (S_ "p q") = Some F_login_tokens
   /\ login_creds false true line = Creds (S_ "a") (S_ "b")
   /\ ~ imap_spec (S_ "d.test") (S_ "a b") (S_ "p q") true
-        (run_creds (S_ "d.test") (login_creds false true line) (Status 200) true true).
+        (run_creds (S_ "d.test") (login_creds false true line) (Status 200) ensure_ok true).
 Proof.
   split; [vm_compute; reflexivity|]. split; [vm_compute; reflexivity|].
   intros H. apply imap_spec_b_iff in H. vm_compute in H. discriminate.
@@ -242,8 +274,8 @@ Proof. repeat split; vm_compute; reflexivity. Qed.
 (** non-vacuity: hypotheses are satisfiable and the accepting path exists *)
 Example c04_accepting_path :
   in_domain (S_ "d.test") (S_ "alice") (S_ "s3cret {pw}") = true
-  /\ answer (authenticate_user (S_ "d.test") (S_ "alice") (S_ "s3cret {pw}") (Status 200) true true) = R_OK
-  /\ bound (authenticate_user (S_ "d.test") (S_ "alice") (S_ "s3cret {pw}") (Status 200) true true)
+  /\ answer (authenticate_user (S_ "d.test") (S_ "alice") (S_ "s3cret {pw}") (Status 200) ensure_ok true) = R_OK
+  /\ bound (authenticate_user (S_ "d.test") (S_ "alice") (S_ "s3cret {pw}") (Status 200) ensure_ok true)
      = Some (S_ "alice", S_ "d.test").
 Proof. repeat split; vm_compute; reflexivity. Qed.
 
